@@ -160,7 +160,7 @@ def cases(draw):
         m = sc.Model(spec)
         t = draw(st.sampled_from(m.invocations))
         entry = copy.deepcopy(draw(sc.schedule_entries(spec["stations"], max_len=4, empty_ok=False)))
-        kind = draw(st.sampled_from(["unknown_station", "unequal_length"]))
+        kind = draw(st.sampled_from(["unknown_station", "unequal_length", "unequal_length"]))
         if kind == "unequal_length" and len(spec["stations"]) < 2:
             kind = "unknown_station"
         if kind == "unknown_station":
@@ -193,7 +193,7 @@ def subchecks(tier):
             prop,
             quick=500,
             thorough=40000,
-            floors={"beyond_horizon_at_last_period": 0.04, "malformed_unknown_station": 0.04, "malformed_unequal_length": 0.03, "overlapping_schedules": 0.3, "omits_station": 0.3, "empty_schedule": 0.1},
+            floors={"beyond_horizon_at_last_period": 0.04, "malformed_unknown_station": 0.04, "malformed_unequal_length": 0.02, "overlapping_schedules": 0.3, "omits_station": 0.3, "empty_schedule": 0.1},
             min_nontrivial=50,
         )
     ]
